@@ -429,6 +429,20 @@ class Inliner(object):
         return changed
 
     def _block(self, blk, table, methods, where):
+        # `g = (v for x in it)` ... `for T in g:` with g used nowhere else: the loop runs over the generator expression itself
+        for i, st in enumerate(list(blk)):
+            if isinstance(st, ast.For) and isinstance(st.iter, ast.Name):
+                nm = st.iter.id
+                defs = [(j, a) for j, a in enumerate(blk[:i]) if isinstance(a, ast.Assign) and len(a.targets) == 1 and isinstance(a.targets[0], ast.Name) and a.targets[0].id == nm and isinstance(a.value, ast.GeneratorExp)]
+                if len(defs) == 1:
+                    j, a = defs[0]
+                    uses = sum(1 for s_ in blk for x in ast.walk(s_) if isinstance(x, ast.Name) and x.id == nm)
+                    free = {x.id for x in ast.walk(a.value) if isinstance(x, ast.Name)}
+                    rebinds = any(isinstance(x, ast.Name) and isinstance(x.ctx, ast.Store) and x.id in free for s_ in blk[j + 1:i] for x in ast.walk(s_))
+                    if uses == 2 and not rebinds:
+                        st.iter = a.value
+                        blk.remove(a)
+                        return self._block(blk, table, methods, where) or list(blk)
         out = []
         changed = False
         for st in blk:
